@@ -199,6 +199,8 @@ def units(tier, seed):
             out.append(("toy", {"curve": "t23a", "digests": [x.hex() for x in one[part::16] + multi]}))
         out.append(("toy", {"curve": "t23b", "digests": [x.hex() for x in one[::16] + multi]}))
         out.append(("toy", {"curve": "t17x", "digests": [x.hex() for x in one[::4] + multi]}))
+        out.append(("toy", {"curve": "t17x-legacy", "digests": [x.hex() for x in one[::16] + multi]}))
+        out.append(("toy", {"curve": "t13-legacy", "digests": [x.hex() for x in one[::16] + multi]}))
         out.append(("toy", {"curve": "t31x", "digests": [x.hex() for x in one[::32] + multi]}))
         out.append(("toy", {"curve": "t101x", "digests": [x.hex() for x in [b"\x00", b"\x61", b"\xff\x01"]], "dstep": 7}))
         out.append(("toy", {"curve": "t127", "digests": [x.hex() for x in [b"\x00", b"\x7f", b"\xff", b"\x83"] + multi[:3]], "dstep": 5}))
